@@ -507,3 +507,74 @@ func globalInit(c *Ctx, v *types.Var) *ast.CompositeLit {
 }
 
 var reWhereCol = regexp.MustCompile("(?i)WHERE\\s+`?([a-z_]+)`?\\s*(?:=|IN)")
+
+// trackerDropAfterCount: the key tracker is what ListKeys / RangeKeys read. Removing one
+// prefix child must not drop the PREFIX flag (or the whole tracker row) while other
+// children remain, so the decision to delete or rewrite the tracker comes only after the
+// remaining children were counted: with the edges on which no prefix removal was asked
+// (removeFlags&PrefixFlag == 0) cut, every path from the entry of updateKeyTracker to the
+// tracker DELETE / UPDATE passes the prefixCount query.
+func trackerDropAfterCount(c *Ctx, rule string) {
+	ut := c.Func("kv/sqlite3", "SqliteKV", "updateKeyTracker")
+	var count []*ast.CallExpr
+	targets := map[string][]*ast.CallExpr{}
+	for _, call := range ut.Calls(false, func(call *ast.CallExpr) bool { return true }) {
+		switch stmtFieldOfCall(ut, call) {
+		case "prefixCount":
+			count = append(count, call)
+		case "trackerDelete":
+			targets["delete"] = append(targets["delete"], call)
+		case "trackerUpdate":
+			targets["update"] = append(targets["update"], call)
+		}
+	}
+	c.Floor("updateKeyTracker children-count sites", len(count), 1)
+	isPrefixAsked := func(e ast.Expr) bool {
+		// removeFlags&PrefixFlag != 0
+		be, ok := ast.Unparen(e).(*ast.BinaryExpr)
+		if !ok || be.Op != token.NEQ {
+			return false
+		}
+		and, ok := ast.Unparen(be.X).(*ast.BinaryExpr)
+		if !ok || and.Op != token.AND {
+			return false
+		}
+		v, _ := ut.ConstVal(be.Y)
+		isParam := func(e ast.Expr) bool {
+			o := ut.ObjOf(e)
+			return o != nil && ut.paramIndex(o) >= 0
+		}
+		return v == "0" && (constName(ut, and.Y) == "PrefixFlag" && isParam(and.X) || constName(ut, and.X) == "PrefixFlag" && isParam(and.Y))
+	}
+	reached, _ := ut.Reach(nil, func(m ast.Node) bool {
+		for _, cc := range count {
+			if containsNode(m, cc) {
+				return true
+			}
+		}
+		return false
+	}, func(b *cfgBlock, si int) bool {
+		for _, at := range ut.edgeAtoms(b, si) {
+			if at.tag == nil && isPrefixAsked(at.e) && !at.truth {
+				return true
+			}
+		}
+		return false
+	})
+	n := 0
+	for kind, calls := range targets {
+		for _, call := range calls {
+			n++
+			early := false
+			for _, m := range reached {
+				if containsNode(m, call) {
+					// reached without passing the count (the stop nodes themselves are in
+					// `reached`, but a target is never inside the count query node)
+					early = true
+				}
+			}
+			c.Ob(rule, "updateKeyTracker#tracker-"+kind+"-only-after-children-counted", call.Pos(), !early, "when a prefix removal is being recorded, the tracker row is deleted / rewritten only after the remaining children were counted (otherwise removing one of several children makes the key vanish from listings while its children are still stored)")
+		}
+	}
+	c.Floor("updateKeyTracker tracker write sites", n, 2)
+}
